@@ -650,6 +650,37 @@ def _oracle_enc(case, impl):
             if Ba is not None and (Ba.shape != Bb.shape or not np.allclose(Ba, Bb, rtol=0, atol=1e-9)):
                 bad("encoding_independent", "smooth_ps", f"curve {i}: the spline basis of the two encodings differs at the observed points (different knots)")
                 break
+    # what the operations mean on the content (independent re-computation on the observed samples)
+    t = np.array(fl([F(x) for x in case["t"]]))
+    for e, o_ in (("NaN", A), ("ragged", B)):
+        si = o_.get("smooth_interp")
+        if isinstance(si, list) and np.all(np.isfinite(np.array(si, dtype=float))):
+            for i in range(len(V)):
+                xs, ys = t[M[i]], V[i][M[i]]
+                want = []
+                for x in t:
+                    if x <= xs[0]:
+                        want.append(ys[0])
+                    elif x >= xs[-1]:
+                        want.append(ys[-1])
+                    else:
+                        k = int(np.searchsorted(xs, x, side="right")) - 1
+                        want.append(ys[k] + (x - xs[k]) * (ys[k + 1] - ys[k]) / (xs[k + 1] - xs[k]))
+                if not np.allclose(si[i], want, rtol=0, atol=1e-9 * sc):
+                    bad("interpolation", "smooth_interp", f"{e} encoding, curve {i}: not the piecewise-linear interpolant of the observed samples (constant outside)")
+                    break
+        nv = o_.get("noise")
+        if isinstance(nv, float) and math.isfinite(nv):
+            w = np.array([float(F(x)) for x in impl["diffseq"]])
+            per = []
+            for i in range(len(V)):
+                ys = V[i][M[i]]
+                if len(ys) < len(w):
+                    per.append(0.0)
+                else:
+                    per.append(float(np.mean([np.dot(w, ys[k:k + len(w)]) ** 2 for k in range(len(ys) - len(w) + 1)])))
+            if abs(nv - float(np.mean(per))) > 1e-9 * sc * sc:
+                bad("noise_variance_estimator", "noise", f"{e} encoding: {nv!r} is not the difference-based estimate {float(np.mean(per))!r} of the observed samples")
     # second call on the same object
     for again, first in (("mean_lp_again", "mean_lp"), ("nsq_again", "nsq"), ("noise_again", "noise")):
         for e, o_ in (("NaN", A), ("ragged", B)):
